@@ -111,7 +111,7 @@ Definition adds_import (pr : project) (m : pymodule) (ii : import_info) (e : edg
   ii_tc ii = false /\ exists r, In r (resolved_modules pr (empty_graph pr) m ii) /\ adds_target pr m r e.
 
 Definition adds_module (pr : project) (m : pymodule) (e : edge) : Prop :=
-  exists ii, In ii (collectModuleImports m) /\ adds_import pr m ii e.
+  shadowed pr m = false /\ exists ii, In ii (collectModuleImports m) /\ adds_import pr m ii e.
 
 Lemma analyze_import_edges : forall pr m g ii, g_nodes g = module_names pr ->
   g_nodes (analyze_import pr m g ii) = module_names pr /\
@@ -135,13 +135,16 @@ Lemma analyze_module_edges : forall pr g m, g_nodes g = module_names pr ->
   g_nodes (analyzeModuleDependencies pr g m) = module_names pr /\
   forall e, In e (g_edges (analyzeModuleDependencies pr g m)) <-> In e (g_edges g) \/ adds_module pr m e.
 Proof.
-  intros pr g m Hg. unfold analyzeModuleDependencies, adds_module.
-  apply (fold_edges (module_names pr) (analyze_import pr m) (adds_import pr m)); [|exact Hg].
-  intros g0 ii Hg0. apply analyze_import_edges. exact Hg0.
+  intros pr g m Hg. unfold analyzeModuleDependencies, adds_module. destruct (shadowed pr m).
+  - split; [exact Hg|]. intro e. split; [auto|]. intros [H|[H _]]; [exact H|discriminate].
+  - destruct (fold_edges (module_names pr) (analyze_import pr m) (adds_import pr m)) with (l := collectModuleImports m) (g := g)
+      as [Hn He]; [|exact Hg|].
+    + intros g0 ii Hg0. apply analyze_import_edges. exact Hg0.
+    + split; [exact Hn|]. intro e. rewrite He. split; (intros [H|H]; [auto|right]); tauto.
 Qed.
 
 Theorem edges_model_spec : forall pr e, In e (edges_model pr) <->
-  exists m ii r, In m pr /\ In ii (collectModuleImports m) /\ ii_tc ii = false /\
+  exists m ii r, In m pr /\ shadowed pr m = false /\ In ii (collectModuleImports m) /\ ii_tc ii = false /\
     In r (resolved_modules pr (empty_graph pr) m ii) /\
     (m_is_pkg m && strict_prefixb (m_path m) r) = false /\
     e = (m_path m, r) /\ is_module pr r = true /\ m_path m <> r.
@@ -152,9 +155,10 @@ Proof.
   - intros g m Hg. apply analyze_module_edges. exact Hg.
   - reflexivity.
   - rewrite He. simpl. split.
-    + intros [[]|[m [Hm [ii [Hii [Htc [r [Hr [Hskip [Heq [_ [Hmr Hne]]]]]]]]]]]].
+    + intros [[]|[m [Hm [Hsh [ii [Hii [Htc [r [Hr [Hskip [Heq [_ [Hmr Hne]]]]]]]]]]]]].
       exists m, ii, r. repeat split; auto.
-    + intros [m [ii [r [Hm [Hii [Htc [Hr [Hskip [Heq [Hmr Hne]]]]]]]]]]. right. exists m. split; [exact Hm|].
+    + intros [m [ii [r [Hm [Hsh [Hii [Htc [Hr [Hskip [Heq [Hmr Hne]]]]]]]]]]]. right. exists m. split; [exact Hm|].
+      split; [exact Hsh|].
       exists ii. split; [exact Hii|]. split; [exact Htc|]. exists r. split; [exact Hr|].
       repeat split; auto. apply mem_path_In. unfold module_names. apply in_map. exact Hm.
 Qed.
@@ -260,6 +264,12 @@ Proof.
     rewrite Hp in F1. rewrite F1 in F2. inversion F2. subst. congruence.
 Qed.
 
+(* one file per module name: no file is shadowed by a package of its name *)
+Lemma nodup_not_shadowed : forall pr m, nodup_paths (module_names pr) = true -> In m pr -> shadowed pr m = false.
+Proof.
+  intros pr m Hn Hm. unfold shadowed. rewrite (init_file_exists_pkg pr m Hn Hm). destruct (m_is_pkg m); reflexivity.
+Qed.
+
 (* ---------------------------------------------------------------------------------------- *)
 (* 4. relative imports: resolveRelativeImport is _resolve_name, for every module, level, name *)
 (* ---------------------------------------------------------------------------------------- *)
@@ -310,7 +320,7 @@ Lemma resolveAbsoluteImport_not_module : forall pr p, is_module pr p = false ->
 Proof.
   intros pr p H. unfold resolveAbsoluteImport. rewrite <- py_or_init in H. apply orb_false_iff in H.
   destruct H as [H1 H2]. rewrite H1, H2.
-  destruct (isStandardLibrary p); [destruct include_stdlib|destruct include_third_party]; auto.
+  destruct (isStandardLibrary p); [destruct include_stdlib|destruct (dir_exists pr p); [|destruct include_third_party]]; auto.
 Qed.
 
 (* the import resolves to the module of that name, or to something that is not a project module *)
@@ -715,7 +725,7 @@ Theorem edges_agree_general : forall pr, project_shape pr = true -> class_implic
 Proof.
   intros pr Hshape Himp Hall Hreg Hnb e. pose proof (shape_nodup pr Hshape) as Hn.
   rewrite edges_model_spec. unfold drop_own. rewrite filter_In, edges_py_spec. split.
-  - intros [m [ii [r [Hm [Hii [Htc [Hr [Hskip [Heq [Hmr Hne]]]]]]]]]].
+  - intros [m [ii [r [Hm [_ [Hii [Htc [Hr [Hskip [Heq [Hmr Hne]]]]]]]]]]].
     unfold collectModuleImports in Hii. apply in_flat_map in Hii. destruct Hii as [s [Hs Hii]].
     split.
     + exists m, s, r. rewrite <- (collect_one_tc s ii Hii). repeat split; auto.
@@ -724,6 +734,7 @@ Proof.
   - intros [[m [s [r [Hm [Hs [Htc [Hr [Hne Heq]]]]]]]] Hf].
     apply (stmt_agrees pr Hshape Himp Hall Hreg Hnb m s Hm Hs r) in Hr. destruct Hr as [Hmr [ii [Hii Hr]]].
     exists m, ii, r. rewrite (collect_one_tc s ii Hii). repeat split; auto.
+    + apply nodup_not_shadowed; assumption.
     + unfold collectModuleImports. apply in_flat_map. exists s. auto.
     + subst e. cbn [fst snd] in Hf. rewrite (init_file_exists_pkg pr m Hn Hm) in Hf. apply negb_true_iff in Hf. exact Hf.
 Qed.
